@@ -125,25 +125,21 @@ theorem syncWithPeer_topics (s : LState) (ns p : Bytes) (r : Reason) : (s.syncWi
   · rfl
   · split <;> (try split) <;> simp [LState.updDoc]
 
+theorem foldl_dialKnown_topics (ns : Bytes) (l : List Bytes) (acc : LState × List Out) :
+    (l.foldl (dialKnown ns) acc).1.topics = acc.1.topics := by
+  induction l generalizing acc with
+  | nil => rfl
+  | cons p l ih =>
+    simp only [List.foldl_cons]
+    rw [ih]
+    exact syncWithPeer_topics _ _ _ _
+
 /-- `start_sync` of a document whose replica opens makes it synced with an active topic: from then on
 local writes are broadcast -/
 theorem startSync_enables_broadcast (s : LState) (ns : Bytes) (known : List Bytes) :
     (step s (.startSync ns true known)).1.topics.contains ns = true := by
-  simp only [step]
-  have hfold : ∀ (l : List Bytes) (acc : LState × List Out),
-      (l.foldl (fun (acc : LState × List Out) p =>
-        let (s', o) := acc.1.syncWithPeer ns p 0
-        (s', acc.2 ++ o)) acc).1.topics = acc.1.topics := by
-    intro l
-    induction l with
-    | nil => intro acc; rfl
-    | cons p l ih =>
-      intro acc
-      simp only [List.foldl_cons]
-      rw [ih]
-      exact syncWithPeer_topics _ _ _ _
-  simp only [Bool.not_true, Bool.and_false, Bool.false_eq_true, if_false]
-  rw [hfold]
+  simp only [step, Bool.not_true, Bool.and_false, Bool.false_eq_true, if_false]
+  rw [foldl_dialKnown_topics]
   simp only [insertSet]
   split <;> split <;> simp_all
 
